@@ -66,8 +66,9 @@ def strategy(tier):
 def boundary_cols(ax, rng):
     """(inside mask, outside mask) over columns for a bounding range (lo, hi)."""
     lo, hi = rng
-    inside = (ax.fs >= lo + ax.df / 2 + 1e-6 * ax.df) & (ax.fs <= hi - ax.df / 2 - 1e-6 * ax.df)
-    outside = (ax.fs < lo - ax.df / 2 - 1e-6 * ax.df) | (ax.fs > hi + ax.df / 2 + 1e-6 * ax.df)
+    eps = max(1e-6 * ax.df, 16 * gen.ulp(ax.fs[-1]))      # the axis itself is only known to an ulp of fmax
+    inside = (ax.fs >= lo + ax.df / 2 + eps) & (ax.fs <= hi - ax.df / 2 - eps)
+    outside = (ax.fs < lo - ax.df / 2 - eps) | (ax.fs > hi + ax.df / 2 + eps)
     if hi < lo:
         inside[:] = False
         outside[:] = True
